@@ -301,7 +301,55 @@ func newSigner(c cfg, km *keyMat) (tink.Signer, error) {
 
 type recorder struct {
 	w *vt.Writer
+	// Caller-buffer discipline: every message and signature handed to Tink is a sub-slice of a driver-owned frame
+	// (guard | bytes | live tail | sentinel-filled spare capacity | guard). The two backing arrays are REUSED for all
+	// successive calls. After every call the whole frame is compared with its pre-call copy (event field inIntact).
+	msgArena, sigArena []byte
 }
+
+const (
+	guardLen = 8
+	tailLen  = 8  // live data right behind the bytes handed to Tink (what an in-place append would hit first)
+	spareLen = 24 // sentinel-filled spare capacity
+)
+
+// frame is a laid-out buffer; off/n locate the bytes of interest inside buf.
+type frame struct {
+	buf    []byte
+	off, n int
+}
+
+// sub returns the first k bytes of the framed data as the slice handed to Tink: its capacity reaches to the end of
+// the frame, so that a library that appends to (or writes behind) its input hits live data, sentinels or guards.
+func (f frame) sub(k int) []byte { return f.buf[f.off : f.off+k : len(f.buf)] }
+func (f frame) all() []byte      { return f.sub(f.n) }
+
+func lay(arena *[]byte, b []byte) frame {
+	total := guardLen + len(b) + tailLen + spareLen + guardLen
+	if cap(*arena) < total {
+		*arena = make([]byte, total, 2*total)
+	}
+	buf := (*arena)[:total]
+	i := 0
+	for ; i < guardLen; i++ {
+		buf[i] = 0xA5
+	}
+	i += copy(buf[i:], b)
+	for k := 0; k < tailLen; k++ { // live, non-zero
+		buf[i] = 0xC1 + byte(k)
+		i++
+	}
+	for k := 0; k < spareLen; k++ {
+		buf[i] = 0x5A
+		i++
+	}
+	for ; i < total; i++ {
+		buf[i] = 0xA5
+	}
+	return frame{buf: buf, off: guardLen, n: len(b)}
+}
+
+func same(a, b []byte) bool { return string(a) == string(b) }
 
 func (r *recorder) pkFields(e vt.Ev, c cfg, pub []byte) {
 	e["pk"] = vt.Hex(pub)
@@ -328,13 +376,22 @@ type signed struct {
 	err      bool
 	panicked bool
 	panicVal any
+	inIntact bool // the caller's frame (message, live tail, spare capacity, guards) is unchanged after the call
 }
 
-func doSign(s tink.Signer, msg []byte) signed {
+func (r *recorder) doSign(s tink.Signer, msg []byte) signed {
+	return r.doSignIn(s, lay(&r.msgArena, msg), len(msg))
+}
+
+// doSignIn signs the first k bytes of an already laid-out frame (the rest of the frame stays live data).
+func (r *recorder) doSignIn(s tink.Signer, f frame, k int) signed {
+	in := f.sub(k)
+	logged, before := clone(in), clone(f.buf) // inputs are logged from pre-call copies
 	var sig []byte
 	var err error
-	p, pv := vt.Try(func() { sig, err = s.Sign(msg) })
-	return signed{msg: msg, sig: sig, atReturn: vt.Hex(sig), err: err != nil, panicked: p, panicVal: pv}
+	p, pv := vt.Try(func() { sig, err = s.Sign(in) })
+	return signed{msg: logged, sig: sig, atReturn: vt.Hex(sig), err: err != nil, panicked: p, panicVal: pv,
+		inIntact: same(f.buf, before)}
 }
 
 // sign records a Sign call: `sig` is what Sign returned, `held` what the caller's slice contains now (after the
@@ -346,6 +403,7 @@ func (r *recorder) sign(c cfg, km *keyMat, h signed) []byte {
 	e["msg"], e["sig"], e["held"] = vt.Hex(h.msg), h.atReturn, vt.Hex(h.sig)
 	e["err"] = h.err
 	e["panic"] = h.panicked
+	e["inIntact"] = h.inIntact
 	e["sk"] = skObj(km)
 	if h.panicked {
 		e["panicVal"] = fmt.Sprint(h.panicVal)
@@ -359,14 +417,23 @@ func (r *recorder) sign(c cfg, km *keyMat, h signed) []byte {
 
 // verify executes one real Verify call and records Tink's verdict.
 func (r *recorder) verify(c cfg, pub []byte, v tink.Verifier, origin, kind string, sig, msg []byte) {
+	r.verifyIn(c, pub, v, origin, kind, lay(&r.sigArena, sig), lay(&r.msgArena, msg), len(msg))
+}
+
+// verifyIn verifies the framed signature against the first k bytes of an already laid-out message frame.
+func (r *recorder) verifyIn(c cfg, pub []byte, v tink.Verifier, origin, kind string, sf, mf frame, k int) {
+	sig, msg := sf.all(), mf.sub(k)
+	lsig, lmsg := clone(sig), clone(msg) // inputs are logged from pre-call copies
+	bs, bm := clone(sf.buf), clone(mf.buf)
 	var err error
 	p, pv := vt.Try(func() { err = v.Verify(sig, msg) })
 	e := c.ev("verify")
 	r.pkFields(e, c, pub)
 	e["kind"], e["origin"] = kind, origin
-	e["msg"], e["sig"] = vt.Hex(msg), vt.Hex(sig)
+	e["msg"], e["sig"] = vt.Hex(lmsg), vt.Hex(lsig)
 	e["ok"] = err == nil && !p
 	e["panic"] = p
+	e["inIntact"] = same(sf.buf, bs) && same(mf.buf, bm)
 	if p {
 		e["panicVal"] = fmt.Sprint(pv)
 	}
@@ -1288,7 +1355,7 @@ type answer struct {
 
 func runAll(keys []keyMat, answers map[int]answer, w *vt.Writer, full bool) {
 	p := buildPlan(keys, full)
-	rec := &recorder{w}
+	rec := &recorder{w: w}
 	// configurations the library is expected to refuse: recorded as coverage, never judged
 	refused := []struct {
 		c    cfg
@@ -1357,7 +1424,7 @@ func runAll(keys []keyMat, answers map[int]answer, w *vt.Writer, full bool) {
 		// (all Sign calls of the unit first: what Sign returned earlier must survive the later calls)
 		var hs []signed
 		for _, m := range u.msgs {
-			hs = append(hs, doSign(s, m))
+			hs = append(hs, rec.doSign(s, m))
 		}
 		var prevSig, prevMsg []byte
 		for _, h := range hs {
@@ -1371,6 +1438,24 @@ func runAll(keys []keyMat, answers map[int]answer, w *vt.Writer, full bool) {
 				rec.verify(c, pub, v, "tink", "other-msg", prevSig, m)
 			}
 			prevSig, prevMsg = sig, m
+		}
+		// a message that is the PREFIX of a live buffer: the enclosing buffer is signed and verified, then its prefix is
+		// signed and verified in place (sub-slice, the rest of the buffer behind it), then the enclosing buffer again
+		if len(u.msgs) > 0 {
+			enc := cat(u.msgs[0], vt.Bytes(r, 3), []byte{0x80 | byte(r.Intn(128))}, vt.Bytes(r, 1+r.Intn(6)))
+			n0 := len(u.msgs[0])
+			hFull := rec.doSign(s, enc)
+			if sigFull := rec.sign(c, km, hFull); sigFull != nil {
+				mf := lay(&rec.msgArena, enc)
+				rec.verifyIn(c, pub, v, "tink", "encl-full-before", lay(&rec.sigArena, sigFull), mf, len(enc))
+				hPre := rec.doSignIn(s, mf, n0)
+				if sigPre := rec.sign(c, km, hPre); sigPre != nil {
+					rec.verifyIn(c, pub, v, "tink", "encl-prefix", lay(&rec.sigArena, sigPre), mf, n0)
+				}
+				rec.verifyIn(c, pub, v, "tink", "encl-full-after", lay(&rec.sigArena, sigFull), mf, len(enc))
+				hAgain := rec.doSignIn(s, mf, len(enc)) // a later Sign of the enclosing buffer signs what is there NOW
+				rec.sign(c, km, hAgain)
+			}
 		}
 		// direction reference -> Tink
 		for _, rc := range u.refs {
@@ -1399,7 +1484,7 @@ func runAll(keys []keyMat, answers map[int]answer, w *vt.Writer, full bool) {
 // event (bin/selfspec separately checks that the reference agrees with the files). What this adds to the
 // mutation classes above: special public keys and hand-crafted edge-case signatures.
 func runWycheproof(dir string, w *vt.Writer, full bool) {
-	rec := &recorder{w}
+	rec := &recorder{w: w}
 	sha := map[string]string{"SHA-256": "SHA256", "SHA-384": "SHA384", "SHA-512": "SHA512"}
 	curve := map[string]string{"secp256r1": "P256", "secp384r1": "P384", "secp521r1": "P521"}
 	type group struct {
@@ -1517,7 +1602,7 @@ func replay(path string, w *vt.Writer) {
 	sl, _ := e["saltLen"].(float64)
 	c := cfg{str("alg"), str("curve"), str("hash"), str("enc"), int(sl), str("variant"), id, str("route")}
 	pub := vt.Unhex(str("pk"))
-	rec := &recorder{w}
+	rec := &recorder{w: w}
 	switch str("ev") {
 	case "verify":
 		v, err := newVerifier(c, pub)
@@ -1541,8 +1626,8 @@ func replay(path string, w *vt.Writer) {
 		if err != nil {
 			vt.Fatal("replay: cannot construct signer: %v", err)
 		}
-		h := doSign(s, vt.Unhex(str("msg")))
-		doSign(s, cat(vt.Unhex(str("msg")), []byte("another message"))) // a later call must not touch the earlier result
+		h := rec.doSign(s, vt.Unhex(str("msg")))
+		rec.doSign(s, cat(vt.Unhex(str("msg")), []byte("another message"))) // a later call must not touch the earlier result
 		rec.sign(c, km, h)
 	default:
 		vt.Fatal("replay: unsupported event %q", str("ev"))
